@@ -42,7 +42,7 @@ pub enum Res {
     Unit,
     Fresh(bool),
     /// `some`: an iterator was returned; `pulled`: items obtained from it before it was dropped
-    Removed { some: bool, pulled: Vec<KV> },
+    Removed { some: bool, pulled: Vec<KV>, seen: Seen },
     RemovedAt(Option<KV>),
     Unique(Result<Option<KV>, (KV, KV)>),
     UniqueMut(Result<bool, (KV, KV)>),
@@ -55,9 +55,19 @@ fn same_kvs(a: &[KV], b: &[KV]) -> bool { a.len() == b.len() && a.iter().zip(b).
 fn show_kv(e: &KV) -> String { format!("{:?}: {}", e.0, e.1) }
 fn show_kvs(es: &[KV]) -> String { format!("[{}]", es.iter().map(show_kv).collect::<Vec<_>>().join(", ")) }
 
-fn pull_with<I: Iterator<Item = Entry>>(mut it: I, c: Cancel, pulled: &mut Vec<KV>) {
+/// How an exhausted removal iterator was consumed when not item by item.
+#[derive(Debug, Clone)]
+pub enum Seen { Items, CountOnly(usize), LastOnly(Option<KV>) }
+
+fn pull_with<I: Iterator<Item = Entry>>(mut it: I, c: Cancel, pulled: &mut Vec<KV>, seen: &mut Seen) {
     match c.then {
-        Then::Exhaust => { for e in it { pulled.push(kv(e)); } }
+        // an exhausting consumer comes in four styles: a for loop, collect(), count(), last()
+        Then::Exhaust => match c.pull % 4 {
+            0 => { for e in it { pulled.push(kv(e)); } }
+            1 => { let v: Vec<Entry> = it.collect(); pulled.extend(v.into_iter().map(kv)); }
+            2 => { *seen = Seen::CountOnly(it.count()); }
+            _ => { *seen = Seen::LastOnly(it.last().map(kv)); }
+        },
         Then::Drop => { for _ in 0..c.pull { match it.next() { Some(e) => pulled.push(kv(e)), None => break } } drop(it); }
         Then::Unwind => {
             for _ in 0..c.pull { match it.next() { Some(e) => pulled.push(kv(e)), None => break } }
@@ -88,6 +98,7 @@ pub fn apply_real(op: &Op, regs: &mut [Object; REGISTERS], maps: &mut [Option<Co
     if !matches!(op, Op::CloneTo { .. }) { maps[op.reg()] = None; }
     let mut some = false;
     let mut pulled: Vec<KV> = vec![];
+    let mut seen = Seen::Items;
     let r = catch_unwind(AssertUnwindSafe(|| -> Res {
         match op {
             Op::Push { r, k, v } => Res::Fresh(regs[*r].push(mk_key(k.as_str(), salt + k.len()), v.build())),
@@ -95,11 +106,11 @@ pub fn apply_real(op: &Op, regs: &mut [Object; REGISTERS], maps: &mut [Option<Co
             Op::PushFront { r, k, v } => Res::Fresh(regs[*r].push_front(mk_key(k.as_str(), salt + k.len()), v.build())),
             Op::PushEntryFront { r, k, v } => Res::Fresh(regs[*r].push_entry_front(Entry::new(mk_key(k.as_str(), salt + k.len()), v.build()))),
             Op::Insert { r, k, v, c } => {
-                if let Some(it) = regs[*r].insert(mk_key(k.as_str(), salt + k.len()), v.build()) { some = true; pull_with(it, *c, &mut pulled); }
+                if let Some(it) = regs[*r].insert(mk_key(k.as_str(), salt + k.len()), v.build()) { some = true; pull_with(it, *c, &mut pulled, &mut seen); }
                 Res::Unit
             }
-            Op::InsertFront { r, k, v, c } => { some = true; let it = regs[*r].insert_front(mk_key(k.as_str(), salt + k.len()), v.build()); pull_with(it, *c, &mut pulled); Res::Unit }
-            Op::Remove { r, k, c } => { some = true; let it = regs[*r].remove(k.as_str()); pull_with(it, *c, &mut pulled); Res::Unit }
+            Op::InsertFront { r, k, v, c } => { some = true; let it = regs[*r].insert_front(mk_key(k.as_str(), salt + k.len()), v.build()); pull_with(it, *c, &mut pulled, &mut seen); Res::Unit }
+            Op::Remove { r, k, c } => { some = true; let it = regs[*r].remove(k.as_str()); pull_with(it, *c, &mut pulled, &mut seen); Res::Unit }
             Op::RemoveAt { r, i } => Res::RemovedAt(regs[*r].remove_at(*i).map(kv)),
             Op::RemoveUnique { r, k } => Res::Unique(match regs[*r].remove_unique(k.as_str()) { Ok(o) => Ok(o.map(kv)), Err(Duplicate(a, b)) => Err((kv(a), kv(b))) }),
             Op::Sort { r } => { regs[*r].sort(); Res::Unit }
@@ -120,6 +131,12 @@ pub fn apply_real(op: &Op, regs: &mut [Object; REGISTERS], maps: &mut [Option<Co
             }
             Op::ExtendEntries { r, es } => { regs[*r].extend(es.iter().map(|(k, v)| Entry::new(mk_key(k.as_str(), salt + k.len()), v.build()))); Res::Unit }
             Op::ExtendPairs { r, es } => { regs[*r].extend(es.iter().map(|(k, v)| (mk_key(k.as_str(), salt + k.len()), v.build()))); Res::Unit }
+            Op::GetOrInsertPanicking { r, k, mutable } => {
+                // the caller's default closure fails: when the key is present it must not even be called
+                let value = if *mutable { regs[*r].get_mut_or_insert_with(k.as_str(), || std::panic::panic_any(SimUnwind)).clone() }
+                    else { regs[*r].get_or_insert_with(k.as_str(), || std::panic::panic_any(SimUnwind)).clone() };
+                Res::Got { value, called: false }
+            }
             Op::ExtendPanicking { r, es, after, pairs } => {
                 // the caller's iterator fails (panics) after `after` items; the object must stay coherent
                 struct PanicAfter<I> { inner: I, left: usize }
@@ -180,10 +197,10 @@ pub fn apply_real(op: &Op, regs: &mut [Object; REGISTERS], maps: &mut [Option<Co
         }
     }));
     match r {
-        Ok(Res::Unit) if op.cancel().is_some() => Applied::Ok(Res::Removed { some, pulled }),
+        Ok(Res::Unit) if op.cancel().is_some() => Applied::Ok(Res::Removed { some, pulled, seen }),
         Ok(res) => Applied::Ok(res),
         Err(p) => {
-            if p.is::<SimUnwind>() { if matches!(op, Op::ExtendPanicking { .. }) { Applied::Ok(Res::Unit) } else { Applied::Ok(Res::Removed { some, pulled }) } }
+            if p.is::<SimUnwind>() { if matches!(op, Op::ExtendPanicking { .. } | Op::GetOrInsertPanicking { .. }) { Applied::Ok(Res::Unit) } else { Applied::Ok(Res::Removed { some, pulled, seen }) } }
             else if let Some(s) = p.downcast_ref::<&str>() { Applied::Panicked(s.to_string()) }
             else if let Some(s) = p.downcast_ref::<String>() { Applied::Panicked(s.clone()) }
             else { Applied::Panicked("<non-string panic payload>".into()) }
@@ -219,6 +236,10 @@ pub fn apply_model(op: &Op, ms: &mut [M; REGISTERS]) -> Exp {
         Op::Sort { r } => { model::sort(&mut ms[*r]); Exp::Unit }
         Op::FromVec { r, es } | Op::FromIterEntries { r, es } | Op::FromIterPairs { r, es } | Op::FromParse { r, es } => { ms[*r] = es.iter().map(|(k, v)| (k.clone(), v.build())).collect(); Exp::Unit }
         Op::ExtendEntries { r, es } | Op::ExtendPairs { r, es } => { ms[*r].extend(es.iter().map(|(k, v)| (k.clone(), v.build()))); Exp::Unit }
+        Op::GetOrInsertPanicking { r, k, .. } => match model::positions(&ms[*r], k).first() {
+            Some(p) => Exp::Got { value: ms[*r][*p].1.clone(), called: false },
+            None => Exp::Unit, // the closure panics; nothing changes
+        },
         Op::ExtendPanicking { r, es, after, .. } => { let n = (*after).min(es.len()); ms[*r].extend(es[..n].iter().map(|(k, v)| (k.clone(), v.build()))); Exp::Unit }
         Op::ExtendFrom { r, s } => { if ms[*r].len() + ms[*s].len() <= MAX_ENTRIES { let src = ms[*s].clone(); ms[*r].extend(src); } Exp::Unit }
         Op::IterMutSet { r, i, v } => { if let Some(e) = ms[*r].get_mut(*i) { e.1 = v.build(); } Exp::Unit }
@@ -254,7 +275,16 @@ fn compare_result(op: &Op, res: &Res, exp: &Exp) -> Result<(), String> {
     match (res, exp) {
         (Res::Unit, Exp::Unit) => Ok(()),
         (Res::Fresh(a), Exp::Fresh(b)) => if a == b { Ok(()) } else { Err(format!("returned {} but the key was {}present before", a, if *b { "not " } else { "" })) },
-        (Res::Removed { some, pulled }, Exp::Removed { some: esome, all }) => {
+        (Res::Removed { some, pulled, seen }, Exp::Removed { some: esome, all }) => {
+            match seen {
+                Seen::Items => {}
+                Seen::CountOnly(n) => { if *some && *n != all.len() { return Err(format!("count() of the removal iterator is {} but the model removes {} entries {}", n, all.len(), show_kvs(all))); } if some == esome { return Ok(()); } }
+                Seen::LastOnly(x) => {
+                    let ok = match (x, all.last()) { (None, None) => true, (Some(a), Some(b)) => same_kv(a, b), _ => false };
+                    if *some && !ok { return Err(format!("last() of the removal iterator is {:?} but the last entry the model removes is {:?}", x.as_ref().map(show_kv), all.last().map(show_kv))); }
+                    if some == esome { return Ok(()); }
+                }
+            }
             if some != esome { return Err(format!("returned {} but the model expects {}", if *some { "Some(iterator)" } else { "None" }, if *esome { "Some(iterator)" } else { "None" })); }
             let c = op.cancel().unwrap();
             let want: &[KV] = match c.then { Then::Exhaust => &all[..], _ => &all[..all.len().min(c.pull)] };
